@@ -56,20 +56,20 @@ Theorem c07_record_roundtrip_partial :
   forall sm refseq seq quals ops start,
     valid_sm sm -> Forall (fun o => 0 < snd o) ops -> read_len ops = len seq ->
     1 <= start -> start + ref_len ops <= len refseq + 1 ->
-    cigar_to_features true refseq seq quals ops start <> None ->
+    cigar_to_features true refseq seq (writer_quals seq quals) ops start <> None ->
     exists s, roundtrip sm refseq seq quals ops start = Some (simplify (norm_ops ops), s)
               /\ eq_nocase_list s seq = true.
 Proof. exact roundtrip_ok. Qed.
 Print Assumptions c07_record_roundtrip_partial.
 
-(* Known defect (cram-mapped-read-missing-qualities-panic): the hypothesis "does not panic" of
-   the theorems above fails for a mapped read without quality scores as soon as the CIGAR has a
-   one-base match: the faithful model returns None (= Rust panic) for EVERY such input. *)
-Theorem c07_missing_qualities_refuted :
+(* Repaired defect (cram-mapped-read-missing-qualities-panic): cigar_to_features itself still
+   panics (None) on an empty quality vector as soon as the CIGAR has a one-base match; since the
+   fix the writer never passes one (writer_quals fills 0xff per base). *)
+Theorem c07_cigar_to_features_needs_qualities :
   forall qa refseq seq k rest rp dp, (k = KM \/ k = KEq \/ k = KX) ->
     c2f qa refseq seq [] ((k, 1) :: rest) rp dp = None.
 Proof. exact missing_qualities_panic. Qed.
-Print Assumptions c07_missing_qualities_refuted.
+Print Assumptions c07_cigar_to_features_needs_qualities.
 
 (* non-vacuity: the default matrix is valid; a read with a mismatch, a non-ACGTN base, an
    insertion, a deletion, clips and a pad round-trips through the model *)
@@ -88,6 +88,10 @@ Example c07_features_nonvacuous :
   | None => False
   end.
 Proof. vm_compute. repeat split; reflexivity. Qed.
+
+Example c07_missing_qualities_now_roundtrip :
+  roundtrip default_sm [65;67;71;84] [65;67] [] [(KM, 1); (KI, 1)] 1 = Some ([(KM, 1); (KI, 1)], [65;67]).
+Proof. vm_compute. reflexivity. Qed.
 
 Example c07_missing_qualities_witness :
   cigar_to_features true [65;67;71;84] [65;67] [] [(KM, 1); (KI, 1)] 1 = None /\
